@@ -166,10 +166,16 @@ impl Runner {
             v["what"].as_str().unwrap_or(""),
             v["deviation"].as_str().unwrap_or("")
         );
-        let n = self.per_what.entry(key).or_insert(0);
+        // ... plus a few on whole arc-minutes, which make the shortest reproductions
+        let round = v["A"]["r"].as_i64().map(|r| r % 60_000 == 0).unwrap_or(false);
+        let nr = *self.per_what.get(&(key.clone() + "|round")).unwrap_or(&0);
+        let n = self.per_what.entry(key.clone()).or_insert(0);
         *n += 1;
         if *n <= 25 {
             self.fails.push(v);
+        } else if round && nr < 5 {
+            self.fails.push(v);
+            *self.per_what.entry(key + "|round").or_insert(0) += 1;
         }
     }
     fn note_group60(&mut self, api: &str, angle: &str, code: f64) {
